@@ -170,6 +170,16 @@ func c12Run(c *Ctx, raw json.RawMessage) {
 				continue
 			}
 			v := a.Interface()
+			if m, ok := v.(map[string]interface{}); ok && m != nil {
+				// record a copy, then write into the map the way helpers fill in defaults: a map
+				// supplied automatically must be a fresh one for every call
+				cp := make(map[string]interface{}, len(m))
+				for k, x := range m {
+					cp[k] = x
+				}
+				m["seen-by-helper"] = true
+				v = cp
+			}
 			received = append(received, v)
 			if h, ok := v.(hctx.HelperContext); ok && h != nil {
 				func() {
